@@ -188,14 +188,22 @@ def run_engine(engine: str, case: Dict[str, Any]) -> Dict[str, Any]:
         else:
             kind = f"error:{type(e).__name__}:{msg[:160]}"
         return {"err": kind}
-    if engine == "py":
+    return normalize_table(out)
+
+
+def normalize_table(out: Any) -> Dict[str, Any]:
+    """any framework's table -> {"cols": [names in order, duplicates kept], "rows": [[(col, val), ...] per row]}; a list of
+    dicts keeps exactly the entries each dict has"""
+    import pyarrow as pa
+
+    if isinstance(out, list):
         cols: List[str] = []
         for r in out:
             for k in r:
                 if k not in cols:
                     cols.append(k)
-        return {"cols": cols, "rows": [[(k, _norm(v)) for k, v in r.items()] for r in out]}
-    if engine == "pa":
+        return {"cols": cols, "rows": [[(str(k), _norm(v)) for k, v in r.items()] for r in out]}
+    if isinstance(out, pa.Table):
         names = list(out.column_names)
         colvals = [out.column(i).to_pylist() for i in range(out.num_columns)]
         return {"cols": names, "rows": [[(names[i], _norm(colvals[i][j])) for i in range(len(names))] for j in range(out.num_rows)]}
